@@ -16,10 +16,11 @@ Record Mid (t : N) (dr : driver) : Prop := mkMid {
   mid_nw : forall w, next_wakeup dr = Some w -> t < w /\ In w (scheduled dr);
   mid_sched : forall w, In w (scheduled dr) -> t <= w }.
 
-(* Inv_wake: every slot with a live entry is covered by a scheduled wake-up that is not
-   in the past and not later than the slot's deadline *)
+(* Inv_wake: every slot with a live entry and a finite deadline (below SimTime::MAX; a
+   far-future Sleep never elapses) is covered by a scheduled wake-up that is not in the past
+   and not later than the slot's deadline *)
 Definition Inv_wake (now : N) (dr : driver) : Prop :=
-  forall d es, In (d, es) (pending dr) -> es <> [] ->
+  forall d es, In (d, es) (pending dr) -> es <> [] -> d < TMAX ->
   exists w, In w (scheduled dr) /\ now <= w /\ w <= d.
 
 (* holds at every event boundary *)
@@ -215,16 +216,20 @@ Proof.
       * constructor; cbn [pending next_wakeup scheduled]; [exact Hps|exact Hpl| |].
         -- intros w Hw. injection Hw as <-. split; [exact Hd0|]. apply in_or_app. right. left. reflexivity.
         -- intros w Hw. apply in_app_or in Hw. destruct Hw as [Hw|[<-|[]]]; [exact (Hsc w Hw)|lia].
-      * intros d es Hin _. cbn [pending scheduled] in *. exists d0.
+      * intros d es Hin _ _. cbn [pending scheduled] in *. exists d0.
         split; [apply in_or_app; right; left; reflexivity|]. split; [lia|exact (Hfront d es Hin)].
-    + (* the wake-up that is already scheduled is early enough *)
-      unfold earlier in Ee. destruct (next_wakeup dr) as [w0|] eqn:En; [|discriminate].
-      destruct (Hnw w0 eq_refl) as [Hw0 Hin0].
-      split.
-      * constructor; cbn [pending next_wakeup scheduled]; [exact Hps|exact Hpl| |exact Hsc].
-        intros w Hw. injection Hw as <-. split; assumption.
-      * intros d es Hin _. cbn [pending scheduled] in *. exists w0.
-        split; [exact Hin0|]. split; [lia|]. pose proof (Hfront d es Hin). lia.
+    + (* the wake-up that is already scheduled is early enough, or the earliest deadline is SimTime::MAX *)
+      unfold earlier in Ee. destruct (next_wakeup dr) as [w0|] eqn:En.
+      * destruct (Hnw w0 eq_refl) as [Hw0 Hin0].
+        split.
+        -- constructor; cbn [pending next_wakeup scheduled]; [exact Hps|exact Hpl| |exact Hsc].
+           intros w Hw. injection Hw as <-. split; assumption.
+        -- intros d es Hin _ _. cbn [pending scheduled] in *. exists w0.
+           split; [exact Hin0|]. split; [lia|]. pose proof (Hfront d es Hin). lia.
+      * split.
+        -- constructor; cbn [pending next_wakeup scheduled]; [exact Hps|exact Hpl| |exact Hsc].
+           intros w Hw. discriminate.
+        -- intros d es Hin _ Hfin. cbn [pending] in Hin. pose proof (Hfront d es Hin). lia.
 Qed.
 
 (* ---- one event ---- *)
@@ -295,7 +300,7 @@ Record Snap (now : N) (dr : driver) : Prop := mkSnap {
   sn_sorted : sorted (pending dr);
   sn_future : forall d es, In (d, es) (pending dr) -> now < d;
   sn_front : match pending dr with (_, []) :: _ => False | _ => True end;
-  sn_cover : forall d es, In (d, es) (pending dr) -> es <> [] ->
+  sn_cover : forall d es, In (d, es) (pending dr) -> es <> [] -> d < TMAX ->
              exists w, next_wakeup dr = Some w /\ In w (scheduled dr) /\ now < w /\ w <= d }.
 
 Lemma deactivate_snap t dr : Mid t dr -> Snap t (fst (deactivate true dr)).
@@ -321,13 +326,15 @@ Proof.
       pose proof (sorted_head_lt _ _ _ Hps Hin) as Hlt. cbn [fst] in Hlt. lia. }
     destruct (earlier d0 (next_wakeup dr)) eqn:Ee; cbn [fst].
     + constructor; cbn [pending next_wakeup scheduled]; [exact Hps|exact Hfut|exact Hfront|].
-      intros d es Hin _. exists d0. split; [reflexivity|]. split; [apply in_or_app; right; left; reflexivity|].
+      intros d es Hin _ _. exists d0. split; [reflexivity|]. split; [apply in_or_app; right; left; reflexivity|].
       split; [exact Hd0|exact (Hmin d es Hin)].
-    + unfold earlier in Ee. destruct (next_wakeup dr) as [w0|] eqn:En; [|discriminate].
-      destruct (Hnw w0 eq_refl) as [Hw0 Hin0].
-      constructor; cbn [pending next_wakeup scheduled]; [exact Hps|exact Hfut|exact Hfront|].
-      intros d es Hin _. exists w0. split; [reflexivity|]. split; [exact Hin0|]. split; [exact Hw0|].
-      pose proof (Hmin d es Hin). lia.
+    + unfold earlier in Ee. destruct (next_wakeup dr) as [w0|] eqn:En.
+      * destruct (Hnw w0 eq_refl) as [Hw0 Hin0].
+        constructor; cbn [pending next_wakeup scheduled]; [exact Hps|exact Hfut|exact Hfront|].
+        intros d es Hin _ _. exists w0. split; [reflexivity|]. split; [exact Hin0|]. split; [exact Hw0|].
+        pose proof (Hmin d es Hin). lia.
+      * constructor; cbn [pending next_wakeup scheduled]; [exact Hps|exact Hfut|exact Hfront|].
+        intros d es Hin _ Hfin. pose proof (Hmin d es Hin). lia.
 Qed.
 
 Lemma step_event_snap st e : Inv (fst st) (snd st) -> ev_valid st e ->
